@@ -107,6 +107,7 @@ pub fn run(run: &mut Run) -> PResult {
         let items: Vec<(u32, Vec<u8>)> = card::DECK.iter().flat_map(|w| sequences().into_iter().map(move |s| (*w, s))).collect();
         super::common::disturbance_pass(run, &items, &|it| clauses(it.0, &it.1), &|it| ("C20.marks".into(), json!({"word": hex(it.0), "sequence": it.1}), format!("{}:{:?}", card::render(it.0), it.1)))?;
     }
+    super::common::count_soak(run, "accessors and strip on marked words", (1 << 30) + (1 << 16), &soak_step)?;
     let seqs = sequences();
     let mut n = 0u64;
     let mut nt = 0u64;
@@ -177,7 +178,10 @@ pub fn run(run: &mut Run) -> PResult {
 }
 
 pub fn check_case(clause: &str, case: &Value) -> Result<(), String> {
-    if clause.ends_with(".after_disturbance") || clause.ends_with(".concurrent") || clause.ends_with(".concurrent_cold_start") {
+    if clause.ends_with(".soak") {
+        return super::common::replay_soak(case, &soak_step);
+    }
+    if clause.ends_with(".after_disturbance") || clause.ends_with(".concurrent") || clause.ends_with(".concurrent_cold_start") || clause.ends_with(".after_repetition") {
         return super::common::replay_after_disturbance(case, check_case);
     }
     if clause == "C20.sort" {
@@ -199,4 +203,17 @@ pub fn check_case(clause: &str, case: &Value) -> Result<(), String> {
     let w = engine::parse_word(&case["word"])?;
     let s: Vec<u8> = case["sequence"].as_array().ok_or("sequence")?.iter().map(|x| x.as_u64().unwrap_or(0) as u8).collect();
     clauses(w, &s)
+}
+
+/// soak step n: accessors of a marked word against the unmarked card
+pub fn soak_step(n: u64) -> Result<(), String> {
+    let c = card::DECK[(n % 52) as usize];
+    let m = ((n / 52) % 8) as u32;
+    let w = c | (m << 29);
+    let ok = w.get_rank_char() == c.get_rank_char() && w.get_suit_bit() == c.get_suit_bit() && w.get_rank_prime() == c.get_rank_prime() && w.get_rank_bit() == c.get_rank_bit() && w.strip_multiples_flags() == c && (n % 64 != 0 || (w.get_suit_char() == c.get_suit_char() && w.get_card_rank() == c.get_card_rank() && w.get_card_suit() == c.get_card_suit()));
+    if ok && c.get_rank_char() == card::RANK_CHARS[card::decode(c).unwrap().0 as usize] {
+        Ok(())
+    } else {
+        Err(format!("the accessors on {} with mark number {} no longer read the unmarked card's fields (rank char {:?}, suit bit {}, prime {}, stripped {})", card::render(c), m, w.get_rank_char(), w.get_suit_bit(), w.get_rank_prime(), hex(w.strip_multiples_flags())))
+    }
 }
